@@ -129,6 +129,7 @@ type Machine struct {
 	uf          map[string][]ufApp
 	crypto      *cryptoState
 	divMemo     map[[2]*Term][2]*Term
+	fmtOpaque   int
 }
 
 type MachineStats struct {
